@@ -41,3 +41,7 @@ add("C16", "SEQ", "model_checking", "explicit-state BFS over two-repository hist
 add("C14", "SEQ", "model_checking", "explicit-state BFS over request histories per pre-existing directory x configuration, with filesystem-call log and snapshot oracles",
     "For a family of pre-existing directory contents x store flavours x all combinations of the API switches, all histories up to the depth bound of every mutating verb, full reads, collection tick, cache expiry and close+reopen are explored; no mutating filesystem call may be issued under a read-only root, the recursive snapshot of the root equals the initial one in every state, refused requests are 4xx with an unchanged read transcript, and reads equal those of a writable store on a copy.",
     TRUSTED, "DESIGN.md section 4 C14")
+
+add("C05", "SEQ", "model_checking", "explicit-state BFS over push/delete/time/collection histories on the implementation (bounded depth) with the real ticker goroutine driven by a virtual clock",
+    "All histories up to the depth bound of complete and step-by-step pushes over an object-graph universe (images, nested indexes, referrers of referrers, dangling and circular subjects, a digest in several roles), deletes, virtual time and collection ticks (delivered to the real gcTicker; the directory store also collects through its repository cache timer) are explored for 8 / 32 policy combinations on both stores; in every distinct state the model's must-retain set must be served. The schedule part (a pending tick racing a step-by-step push) is part of the SCHED scenarios.",
+    TRUSTED, "DESIGN.md section 4 C05")
